@@ -48,6 +48,9 @@ type StoreWrite struct {
 	Ret     string
 	// committed read revision sampled right after the engine answered and before the backend learns the outcome
 	CommittedAfter uint64
+	// revision held by the index record this batch replaced (compare-and-swap batches only)
+	PrevIdxRev uint64
+	HasPrev    bool
 }
 
 type concCfg struct {
@@ -57,6 +60,7 @@ type concCfg struct {
 	opsPer     int
 	maxDelayUs int
 	faultPct   int  // % of write batches answered with a definite storage error
+	uncertainPct int // % of write batches answered 'outcome unknown' (half of them applied)
 	futurePct  int  // % of guarded writes that name a far-future expectation
 	readers    int  // concurrent list readers (snapshot stability)
 	noIdle     bool // production sequencer timing
@@ -112,12 +116,18 @@ func newConcRun(c *harness.Case, cfg concCfg) *concRun {
 		}
 	}
 	w.Decide = func(b *harness.BatchInfo) harness.Decision {
-		if atomic.LoadInt32(faultOn) == 1 && cfg.faultPct > 0 {
+		if atomic.LoadInt32(faultOn) == 1 && cfg.faultPct+cfg.uncertainPct > 0 {
 			if _, _, _, ok := b.Write(); ok {
 				x := uint64(delaySeed)*31 ^ uint64(b.Seq)*0xc2b2ae3d27d4eb4f
 				x ^= x >> 31
 				if int(x%100) < cfg.faultPct {
 					return harness.FailDefinite
+				}
+				if int(x%100) < cfg.faultPct+cfg.uncertainPct {
+					if (x>>8)%2 == 0 {
+						return harness.UncertainApplied
+					}
+					return harness.UncertainNotApplied
 				}
 			}
 		}
@@ -130,6 +140,9 @@ func newConcRun(c *harness.Case, cfg concCfg) *concRun {
 			return
 		}
 		sw := StoreWrite{Raw: string(raw), Rev: rev, Val: val, Applied: b.Applied}
+		if b.Ops[0].Kind == "cas" && len(b.Ops[0].Old) >= 8 {
+			sw.PrevIdxRev, sw.HasPrev = u64(b.Ops[0].Old[:8]), true
+		}
 		if ret != nil {
 			sw.Ret = ret.Error()
 		}
@@ -346,6 +359,30 @@ func (cr *concRun) successes() map[string][]*COp {
 	}
 	for _, l := range m {
 		sort.Slice(l, func(i, j int) bool { return l[i].Out.Rev < l[j].Out.Rev })
+	}
+	return m
+}
+
+// landedModel = initial versions + every write batch that landed in the engine (storage-boundary log).
+// With unknown outcomes in play this, not the acknowledgements, is the ground truth of what reads may see.
+func (cr *concRun) landedModel() *harness.Model {
+	m := cr.init.Clone()
+	cr.mu.Lock()
+	ws := append([]StoreWrite(nil), cr.store...)
+	cr.mu.Unlock()
+	sort.Slice(ws, func(i, j int) bool { return ws[i].Rev < ws[j].Rev })
+	for _, w := range ws {
+		if !w.Applied || w.Rev <= cr.n.Start {
+			continue
+		}
+		if lv := m.Latest(w.Raw); lv != nil && lv.Rev >= w.Rev {
+			continue // set-up writes are already in init
+		}
+		if bytes.Equal(w.Val, []byte("tombstone")) {
+			m.Del(w.Raw, w.Rev)
+		} else {
+			m.Put(w.Raw, w.Rev, w.Val)
+		}
 	}
 	return m
 }
@@ -706,6 +743,12 @@ func (cr *concRun) checkC02(c *harness.Case) {
 			p = op.Out.Rev
 		}
 	}
+	// (c') at the storage boundary: a write that landed by replacing an index record carries a larger revision than the one it replaced
+	for _, sw := range cr.store {
+		if sw.Applied && sw.HasPrev && sw.Rev <= sw.PrevIdxRev {
+			c.Violatef("C02 key-history-not-increasing at=storage-boundary", cr.witness(sw.Raw), "key %q: a write with revision %d landed on top of the key's revision %d (modification revisions along the key's history do not increase)", sw.Raw, sw.Rev, sw.PrevIdxRev)
+		}
+	}
 	// (d) header >= data
 	for _, op := range cr.ops {
 		if op.Out.Err != "" {
@@ -733,6 +776,19 @@ func (cr *concRun) checkC04(c *harness.Case) {
 	}
 	c.Stat("commits_observed", int64(len(cr.store)))
 	c.Stat("commits_finished_out_of_allocation_order", cr.oooDone)
+	// with unknown outcomes injected, quiescence also needs the retry queue to drain (bounded wait; expiry is decided by conservation below)
+	if cr.cfg.uncertainPct > 0 {
+		deadline := time.Now().Add(20 * time.Second)
+		for time.Now().Before(deadline) {
+			q1 := cr.n.RetryQueueLen()
+			cm, dl := cr.n.Committed(), cr.n.Dealt()
+			if q1 == 0 && cm == dl && cr.n.RetryQueueLen() == 0 {
+				break
+			}
+			time.Sleep(2 * time.Millisecond)
+		}
+		c.Stat("unknown_outcomes_injected_cases", 1)
+	}
 	// monitor 3: conservation at quiescence
 	missing, dup, dealt, dropped := cr.n.Conservation()
 	c.Stat("revisions_dealt", int64(dealt-cr.n.Start))
@@ -740,12 +796,15 @@ func (cr *concRun) checkC04(c *harness.Case) {
 		// name the request that consumed the first missing revision if a response identifies it
 		culprit := ""
 		for _, op := range cr.ops {
-			if op.Out.Err != "" && (op.Kind == "update" || op.Kind == "delete") && op.Exp > dealt {
+			if cr.cfg.uncertainPct == 0 && op.Out.Err != "" && (op.Kind == "update" || op.Kind == "delete") && op.Exp > dealt {
 				culprit = op.String()
 				break
 			}
 		}
 		sig := "C04 revision-never-resolved"
+		if cr.cfg.uncertainPct > 0 {
+			sig += " workload=unknown-outcomes-and-storage-errors"
+		}
 		if culprit != "" {
 			sig += " request=future-expected-revision"
 		}
@@ -762,6 +821,9 @@ func (cr *concRun) checkC04(c *harness.Case) {
 	}
 	// snapshot stability: every concurrent List(rev=0) equals the reference snapshot at its header revision
 	fm := cr.finalModel()
+	if cr.cfg.uncertainPct > 0 {
+		fm = cr.landedModel()
+	}
 	full := harness.Prefix + "/"
 	end := string(backend.PrefixEnd([]byte(full)))
 	lists := int64(0)
